@@ -103,13 +103,34 @@ def joinComma : List Text → Text
 def pgEvalJsonPath (W : Char → Bool) (keys : List Key) : Text :=
   '{' :: (joinComma (keys.map (pgSeg W)) ++ ['}'])
 
+/-- the path text `SQLiteBuilder.eval_json_path` writes for JSON1 when it spells a negative index `[#-N]` -/
+def segJ1 (W : Char → Bool) : Key → Text
+  | .idx i => if i < 0 then '[' :: '#' :: (intText i ++ [']']) else seg W (.idx i)
+  | k => seg W k
+
+def evalJsonPathJ1 (W : Char → Bool) (keys : List Key) : Text := '$' :: (keys.flatMap (segJ1 W))
+
 /-! ### parsing the path text back (`_parse_path`) -/
 
+/-- `-?` of the regex -/
+def isNegText : Text → Bool
+  | '-' :: _ => true
+  | _ => false
+def dropMinus : Text → Text
+  | '-' :: r => r
+  | r => r
+
+/-- `#?` of the regex (only when `hash`) -/
+def skipHash (hash : Bool) (t : Text) : Text :=
+  if hash then (match t with | '#' :: r => r | r => r) else t
+
 /-- `json_path_re.match(path, pos)` on the suffix starting at `pos`: the key appended and the rest after `match.end()` -/
-def matchSeg (W : Char → Bool) : Text → Option (Key × Text)
-  | '[' :: rest =>
-      let neg := match rest with | '-' :: _ => true | _ => false
-      let r1 := match rest with | '-' :: r => r | r => r
+def matchSeg (W : Char → Bool) (hash : Bool) : Text → Option (Key × Text)
+  | '[' :: rest0 =>
+      -- `#?` : present in the regex only when `hash` (the source's regex text decides; see Props.C29.srcHash)
+      let rest := skipHash hash rest0
+      let neg := isNegText rest
+      let r1 := dropMinus rest
       let ds := r1.takeWhile isDigitC
       if ds.isEmpty then none else
       match r1.dropWhile isDigitC with
@@ -127,17 +148,17 @@ def matchSeg (W : Char → Bool) : Text → Option (Key × Text)
   | _ => none
 
 /-- the `while pos < path_len` loop (`fuel` = remaining length; `none` = `keys = None`) -/
-def parseSegs (W : Char → Bool) : Nat → Text → Option (List Key)
+def parseSegs (W : Char → Bool) (hash : Bool) : Nat → Text → Option (List Key)
   | _, [] => some []
   | 0, _ :: _ => none
   | f + 1, c :: cs =>
-      match matchSeg W (c :: cs) with
+      match matchSeg W hash (c :: cs) with
       | none => none
-      | some (k, r) => (parseSegs W f r).map (k :: ·)
+      | some (k, r) => (parseSegs W hash f r).map (k :: ·)
 
 /-- `_parse_path(path)` for a `str` path -/
-def parsePath (W : Char → Bool) : Text → Option (List Key)
-  | '$' :: r => parseSegs W r.length r
+def parsePath (W : Char → Bool) (hash : Bool) : Text → Option (List Key)
+  | '$' :: r => parseSegs W hash r.length r
   | _ => none
 
 /-! ### navigation -/
@@ -203,17 +224,18 @@ inductive SqlErr where
 /-- `json_extract(doc, path)` for a path text emitted by `evalJsonPath` (jsonLookupStep of SQLite 3.40): the path is read
     lazily, step by step; a step that finds nothing ends the lookup with NULL; `[-i]` is a path error when the step is
     reached (whatever the node is); a label containing an escaped character never matches. -/
-def json1Extract : Json → List Key → Except SqlErr Json
+def json1Extract (negHash : Bool) : Json → List Key → Except SqlErr Json
   | v, [] => .ok v
   | v, .idx i :: ks =>
-      if i < 0 then .error .pathError else
+      -- `negHash`: the SQLite builder writes a negative index as `[#-N]` (counted from the end) instead of `[-N]` (a path error)
+      if i < 0 && !negHash then .error .pathError else
       match v with
-      | .arr xs => (match xs[i.toNat]? with | some w => json1Extract w ks | none => .ok .null)
+      | .arr xs => (match listGet xs i with | some w => json1Extract negHash w ks | none => .ok .null)
       | _ => .ok .null
   | v, .name s :: ks =>
       match v with
       | .obj kvs =>
-          if s.all json1SafeChar then (match kvs.lookup s with | some w => json1Extract w ks | none => .ok .null)
+          if s.all json1SafeChar then (match kvs.lookup s with | some w => json1Extract negHash w ks | none => .ok .null)
           else .ok .null
       | _ => .ok .null
 
